@@ -74,3 +74,55 @@ extern "C" int LLVMFuzzerTestOneInput(const uint8_t* data, size_t size) {
   }
   return 0;
 }
+
+// Grammar-aware mutation: half of the mutations work on whole LINES (the unit of the Ninja grammar) -- a run
+// of 1-3 consecutive lines is duplicated elsewhere, deleted, or moved, or a line's indentation is toggled -- so
+// that declarations with their indented bindings get repeated, reordered and orphaned; the other half is
+// libFuzzer's byte-level mutation.
+extern "C" size_t LLVMFuzzerMutate(uint8_t* data, size_t size, size_t maxSize);
+extern "C" size_t LLVMFuzzerCustomMutator(uint8_t* data, size_t size, size_t maxSize, unsigned int seed) {
+  uint64_t s = seed * 6364136223846793005ULL + 1442695040888963407ULL;
+  auto rnd = [&s](size_t n) { s = s * 6364136223846793005ULL + 1442695040888963407ULL; return n ? (size_t)((s >> 33) % n) : 0; };
+  if (size == 0 || rnd(2) == 0) return LLVMFuzzerMutate(data, size, maxSize);
+  std::vector<std::string> lines;
+  {
+    std::string cur;
+    for (size_t i = 0; i < size; ++i) {
+      cur.push_back((char)data[i]);
+      if (data[i] == '\n' || data[i] == 0x1c) { lines.push_back(cur); cur.clear(); }
+    }
+    if (!cur.empty()) lines.push_back(cur);
+  }
+  if (lines.empty()) return LLVMFuzzerMutate(data, size, maxSize);
+  size_t from = rnd(lines.size());
+  size_t len = 1 + rnd(3);
+  if (from + len > lines.size()) len = lines.size() - from;
+  std::vector<std::string> run(lines.begin() + from, lines.begin() + from + len);
+  switch (rnd(4)) {
+  case 0: {   // duplicate the run somewhere
+    size_t to = rnd(lines.size() + 1);
+    if (!run.back().empty() && run.back().back() != '\n') run.back().push_back('\n');
+    lines.insert(lines.begin() + to, run.begin(), run.end());
+    break;
+  }
+  case 1:     // delete the run
+    if (lines.size() > len) lines.erase(lines.begin() + from, lines.begin() + from + len);
+    break;
+  case 2: {   // move the run
+    lines.erase(lines.begin() + from, lines.begin() + from + len);
+    size_t to = rnd(lines.size() + 1);
+    lines.insert(lines.begin() + to, run.begin(), run.end());
+    break;
+  }
+  default: {  // toggle the indentation of one line
+    std::string& l = lines[from];
+    if (!l.empty() && l[0] == ' ') l.erase(0, l.find_first_not_of(' ') == std::string::npos ? l.size() : l.find_first_not_of(' '));
+    else l.insert(0, "  ");
+  }
+  }
+  std::string out;
+  for (auto& l : lines) out += l;
+  if (out.size() > maxSize) out.resize(maxSize);
+  memcpy(data, out.data(), out.size());
+  return out.size();
+}
